@@ -66,9 +66,12 @@ IsNamed(nd) == nd.kind \in {"object", "union"}
 NodeRefs(nd) == {nd.attrs[k].ref.n : k \in 1..Len(nd.attrs)} \ {0}
 
 ---------------------------------------------------------------------------
-(* Generator: every graph with at most N nodes, as a term in preorder.  A user
-   type is defined at its first occurrence and may be referenced from then on
-   (also from inside its own definition). *)
+(* The graph space, declaratively: every graph with at most N nodes, as a term
+   in preorder.  A user type is defined at its first occurrence and may be
+   referenced from then on (also from inside its own definition).  The state
+   machine below grows the same graphs one constructor at a time (action Build:
+   TLC explores that in parallel and memoises the prefixes); BuildSound ties the
+   two together and is checked for N <= 2. *)
 RECURSIVE Gen(_, _, _), Kids(_, _, _, _)
 Gen(nx, b, us) ==
   {[ref |-> P(p), nodes |-> <<>>, us |-> us] : p \in Leaves}
@@ -502,4 +505,6 @@ CopyEqual == pc = "mut" /\ script = <<>> => Canon(hp, rc) = Canon(hp, ro)
 CopyDisjoint == pc = "mut" => Reach(ro) \cap Reach(rc) = {}
 CopyIndependent == \A i \in 1..Len(unch) : unch[i]
 DupTerminates == pc = "mut" => Len(hp.nodes) <= 2 * N + MaxSteps
+\* the graphs Build completes are exactly the declared space (completeness: compare the counts)
+BuildSound == pc = "start" => g \in Graphs
 ===========================================================================
